@@ -1,0 +1,6 @@
+//go:build !verif
+
+package iterator
+
+// verifYield is a no-op unless the package is built with the verif tag.
+func verifYield(op string) {}
